@@ -714,7 +714,7 @@ def corrupt(rng, data):
 
 TOKENS = [b"\r\n", b"\r", b"\n", b"$", b"*", b"+", b"-", b":", b"0", b"1", b"-1", b"3", b"10", b"PING", b"GET", b"SET", b"OK",
           b"PONG", b"MOVED ", b"ASK ", b"MOVED 1 ", b"a", b"key", b" ", b":", b"127.0.0.1:6379", b"$-1\r\n", b"*-1\r\n", b"*0\r\n",
-          b"$0\r\n\r\n", b"*1\r\n", b"$3\r\nGET\r\n", b"$4\r\nPING\r\n", b"\x00", b"\xff", b"99999999999999999999", b"r", b"rn"]
+          b"$0\r\n\r\n", b"*1\r\n", b"$3\r\nGET\r\n", b"$4\r\nPING\r\n", b"\x00", b"\xff", b"99999999999999999999", b"r", b"rn", b":+5\r\n", b"$+2\r\n", b"*+1\r\n", b"+5", b" 5", b"0x1"]
 
 
 def token_string(rng, n=None):
@@ -781,6 +781,28 @@ def c08(ctx):
     for n in ((1000, 1024, 1025, 1500, 4096) if quick else (500, 1000, 1023, 1024, 1025, 1026, 1500, 2048, 4095, 4096, 4097, 8000, 8190, 8192, 9000)):
         streams.append(("longline", b"*3\r\n$3\r\nSET\r\n$1\r\nk\r\n+" + b"v" * n + b"\r\n*2\r\n$3\r\nGET\r\n$1\r\nk\r\n", b"+OK\r\n$-1\r\n"))
         streams.append(("longline", b"*2\r\n$3\r\nGET\r\n$1\r\nk\r\n" * 2, b"-" + b"E" * n + b"\r\n+" + b"S" * n + b"\r\n"))
+    # number lines written in the ways a general-purpose integer parser accepts or refuses differently from a digit loop
+    # (signs, blanks, underscores, radix prefixes, exponents, non-ASCII digits, nothing at all), as integer replies, as
+    # bulk lengths and as array counts, both directions: the value must not depend on where a read ended
+    def odd_number():
+        if rng.random() < 0.5:
+            return rng.choice([b"+5", b"+0", b"+", b"-", b"--5", b"+-5", b"-+5", b" 5", b"5 ", b"0x10", b"1_0", b"1e3", b"05", b"-0",
+                               b"5.0", b"\xd9\xa3", b"", b"+2", b"+1", b"++1", b"9223372036854775808", b"-9223372036854775809", b"0b1", b"0o7"])
+        return b"".join(rng.choice([b"+", b"-", b"1", b"2", b"0", b" ", b"_", b"x", b"e", b"."]) for _ in range(rng.randint(1, 4)))
+    for i in range(10 if quick else 80):
+        def half(client):
+            out = b""
+            for _ in range(rng.randint(1, 3)):
+                r = rng.random()
+                if r < 0.4:
+                    out += b":" + odd_number() + b"\r\n"
+                elif r < 0.7:
+                    out += b"$" + odd_number() + b"\r\nhi\r\n"
+                else:
+                    out += b"*" + odd_number() + b"\r\n$3\r\nGET\r\n$1\r\nk\r\n"
+            return out
+        streams.append(("odd-numbers", half(True), half(False)))
+    streams.append(("odd-numbers", b"*1\r\n$+4\r\nPING\r\n*+1\r\n$4\r\nPING\r\n", b":+5\r\n$+2\r\nhi\r\n"))
     big = gen_conv(rng, tb, 3, True, big=True)
     cb, sb, _, _ = enc_conv(big)
     kcases = []
